@@ -9,12 +9,18 @@ func coeffScope(pkg string) bool {
 
 func init() {
 	register("C04", []string{"./constraint/...", "./frontend/...", "./backend/groth16/..."}, func(p *Prog, r *Report) {
-		r.Engines = []string{"coeffid(COEFF-SWITCH,COEFF-TABLE)"}
-		r.Explanation = "Narrow claim (DESIGN.md 4/C04). Decided by symbolic interpretation of the syntax tree: (COEFF-SWITCH) in every switch over a coefficient id (solver computeTerm / accumulateInto / divByCoeff in the 10 constraint packages, Groth16 setupABC.accumulate, mpcsetup Phase2.Initialize accumulateG1/G2) the effect of each special-id fast path (0, 1, 2, -1, -2) is identical, as a polynomial in the operand, the accumulator and the table coefficient, to the table path with the coefficient replaced by the value the id stands for; (COEFF-TABLE) the special slots of the compiler-side and solver-side coefficient tables hold exactly those values and AddCoeff maps each predicate to the matching id. A mismatch makes every circuit using that coefficient compute something else in the solver, the prover keys or the MPC keys. NOT decided: constant folding, expression merging, gate splitting, linear-expression compression, operand-kind independence (value-level; e.g. the known DivUnchecked(0,0) divergence) — these need execution or symbolic semantics of whole circuits."
+		r.Engines = []string{"coeffid(COEFF-SWITCH,COEFF-TABLE)", "gate(GATE-SOLVE,GATE-CODEC)", "aliasflag(ARG-ALIAS)"}
+		r.Explanation = "Narrow claim (DESIGN.md 4/C04). Decided by symbolic interpretation of the syntax tree: (COEFF-SWITCH) in every switch over a coefficient id (solver computeTerm / accumulateInto / divByCoeff in the 10 constraint packages, Groth16 setupABC.accumulate, mpcsetup Phase2.Initialize accumulateG1/G2) the effect of each special-id fast path (0, 1, 2, -1, -2) is identical, as a polynomial in the operand, the accumulator and the table coefficient, to the table path with the coefficient replaced by the value the id stands for; (COEFF-TABLE) the special slots of the compiler-side and solver-side coefficient tables hold exactly those values and AddCoeff maps each predicate to the matching id. A mismatch makes every circuit using that coefficient compute something else in the solver, the prover keys or the MPC keys. NOT decided: constant folding, expression merging, gate splitting, linear-expression compression, operand-kind independence (value-level; e.g. the known DivUnchecked(0,0) divergence) — these need execution or symbolic semantics of whole circuits. (GATE-SOLVE / GATE-CODEC) the Solve method of each specialised sparse gate (generic, mul, add, bool) accepts or assigns exactly what the gate decoded by DecompressSparseR1C — the gate the backend proves — states, so solving the compiled sparse system and the compiled constraint agree. (ARG-ALIAS) the alias-or-clone helper of the R1CS builder (mulConstant: works in place under a flag) is told to work in place only on builder-owned expressions — fresh wires, clones, builder buffers or, inductively, the running result of the same helper — in every calling context of the enclosing closure, so no API call rescales a variable the caller still holds."
 		r.RuleText = "one obligation per (switch, special id) and per table slot / predicate; nontrivial = polynomial effects compared"
 		r.Assumptions = []string{"gnark-crypto field element methods Add/Sub/Double/Neg/Mul/Div/Inverse/Set*/ScalarMultiplication have their arithmetic meaning"}
 		RunCoeffSwitches(p, r, coeffScope)
 		RunCoeffTables(p, r)
+		// the specialised sparse gates the scs builder emits: what their Solve accepts / assigns is the gate the
+		// backend sees (compile path and witness path agree)
+		RunGateBlueprints(p, r)
+		r.RequireMin("GATE-SOLVE", 7)
+		RunArgAlias(p, r)
+		r.RequireMin("ARG-ALIAS", 5)
 		r.RequireMin("COEFF-SWITCH", 100)
 		r.RequireMin("COEFF-TABLE", 40)
 	})
